@@ -110,8 +110,13 @@ def templates(tier, seed):
             for ops in itertools.product(OPS, repeat=n):
                 tds.append(dict(fam="chain", n=n, shape=si, ops=list(ops), neg=None, ctx="attr"))
     for si, sh in enumerate(shapes(4)):
-        for _ in range(12):
-            tds.append(dict(fam="chain", n=4, shape=si, ops=[rnd.choice(OPS) for _ in range(4)], neg=None, ctx="attr"))
+        if tier == "thorough":
+            for ops in itertools.product(OPS, repeat=4):
+                tds.append(dict(fam="chain", n=4, shape=si, ops=list(ops), neg=None, ctx="attr"))
+        else:
+            rnd4 = random.Random(5 + seed + si)
+            for _ in range(12):
+                tds.append(dict(fam="chain", n=4, shape=si, ops=[rnd4.choice(OPS) for _ in range(4)], neg=None, ctx="attr"))
     for n in (1, 2):
         for si, sh in enumerate(shapes(n)):
             for ops in itertools.product(OPS, repeat=n):
@@ -133,8 +138,6 @@ def templates(tier, seed):
         tds.append(dict(fam="malformed", case=m))
     for v in RANDOM_VARIANTS:
         tds.append(dict(fam="random-once", variant=v))
-    if tier == "quick":
-        tds = sample_quota(tds, lambda t: (t["fam"], t.get("n"), t.get("ctx")), {"chain": 40, "cmp": 20, "func": 100, "malformed": 100, "random-once": 100}, seed)
     return tds
 
 
@@ -212,7 +215,8 @@ MALFORMED = {
     "arity-clamp": "{{clamp([[0]], 1)}}", "undefined-var": "{{$nope + [[0]]}}", "dangling-op": "{{[[0]] +}}", "double-op": "{{[[0]] * / 2}}", "empty-parens": "{{[[0]] + ()}}",
     "circular": None, "self-ref": None, "trailing": "{{[[0]] 2}}", "arity-mix": "{{mix([[0]], 1)}}", "select-range": "{{select(5, [[0]], 1)}}",
 }
-RANDOM_VARIANTS = ["geom", "text", "circle-r", "var", "if", "comment", "relpos", "g-attr", "two-in-one", "loop-body", "reuse-attr"]
+RANDOM_VARIANTS = ["geom", "text", "circle-r", "var", "if", "comment", "relpos", "g-attr", "two-in-one", "loop-body", "reuse-attr",
+                   "randint", "randint-same", "randint-frac", "randint-neg", "random-in-expr", "randint-in-cond"]
 
 
 def ctx_doc(ctx, expr, vars_):
@@ -384,7 +388,11 @@ def build(td, wrong=False):
         mid = {"geom": f'<rect xy="{R} [[0]]" wh="1"/>', "text": f'<rect wh="1" text="{R}"/>', "circle-r": f'<circle r="{R}"/>', "var": f'<var q="{R}"/>',
                "if": f'<if test="{R}"><circle r="1"/></if>', "comment": f'<rect wh="1" _="{R}"/>', "relpos": f'<rect xy="^|h {R}" wh="1"/>', "g-attr": f'<g q="{R}"><rect wh="1"/></g>',
                "two-in-one": f'<rect xy="{R} 0" wh="1" data-x="{R}"/>', "loop-body": f'<loop count="2"><rect xy="{R} 0" wh="1"/></loop>',
-               "reuse-attr": f'<specs><rect id="t" wh="$w 1"/></specs><reuse href="#t" w="{R}"/>'}[v]
+               "reuse-attr": f'<specs><rect id="t" wh="$w 1"/></specs><reuse href="#t" w="{R}"/>',
+               # every occurrence of a random function draws exactly once, whatever its arguments evaluate to
+               "randint": '<rect wh="1" data-i="{{randint(1, 6)}}"/>', "randint-same": '<rect wh="1" data-i="{{randint(3, 3)}}"/>',
+               "randint-frac": '<rect wh="1" data-i="{{randint(2.2, 2.9)}}"/>', "randint-neg": '<rect wh="1" data-i="{{randint(-4, -4)}}"/>',
+               "random-in-expr": '<rect wh="1" data-i="{{0 * random() + 1}}"/>', "randint-in-cond": '<if test="{{randint(0, 0)}}"><circle r="1"/></if>'}[v]
         draws = {"two-in-one": 2, "loop-body": 2}.get(v, 1)
         base_mid = "".join(f'<rect wh="1" data-m{j}="{R}"/>' for j in range(draws))
         d0 = f"<svg>{probe(1)}{mid}{probe(2)}{probe(3)}</svg>"
